@@ -18,9 +18,9 @@ CLAIMED = {
         design="4 C01"),
     "C02": dict(
         technique="abstract interpretation with materialised ancestor chains + normal-form comparison of L-R up to a non-zero unit",
-        text="All applicable cases of BalancedMove (chains of up to 3/4 ancestors between the moved node and '=', every kind and "
+        text="All applicable cases of BalancedMove (chains of up to 4/6 ancestors between the moved node and '=', every kind and "
              "side), the equation flip, and every other rule on an '=' node: L-R equals a proven non-zero multiple of L'-R'.",
-        note="W: '=' only at the root; chain length bound (quick 3, thorough 4 levels above the node). Numeric truth of an "
+        note="W: '=' only at the root; chain length bound (quick 4, thorough 6 levels above the node). Numeric truth of an "
              "equation and chained equations are not decided.",
         design="4 C02"),
     "C06": dict(
@@ -42,7 +42,8 @@ CLAIMED = {
         technique="attribute-completeness table over clone() MRO chains; abstract interpretation of clone()/clone_from_root()",
         text="clone() of each of the 12 classes builds a fresh same-class node whose children are the clones of the children on "
              "the same sides with id/payload/operand side copied; clone_from_root() returns the copy of the receiver at the "
-             "same position of a complete copy (ancestor chains <= 2, every kind and side).",
+             "same position of a complete copy (ancestor chains <= 2, every kind and side; and, with the real clone() on every "
+             "node, for every node of every tree of depth <= 2 over five node kinds).",
         note="Induction hypothesis for recursive clone() of proper subtrees; clone_from_root(other_node) not decided.",
         design="4 C13"),
     "C14": dict(
